@@ -93,20 +93,7 @@ def run_c04(ck, fb, fbd):
         lastblock = b in [p for p in gc.pred(gc.exit)] and not at
         ok = lastblock or at <= {("deferred_deletion_enabled()", False), ("needs_garbage_collection()", False)} and at
         (ck.ok if ok else lambda r, w, t: ck.violate(r, w, t, "C04.early"))("C04.early", gc.loc(x), "collect_garbage return under %s" % (sorted(at) or "no condition (end of function)"))
-    # (3) leaving deferred mode collects
-    ck.rule("C04.leave", "enable_deferred_deletion(false) passes through collect_garbage() whenever the mode was on, before the flag is written")
-    ed = [f for f in c.fns if f.name == "enable_deferred_deletion"]
-    if not ed:
-        raise AnalysisBroken("anchor vanished: TopologyKernel::enable_deferred_deletion")
-    ed = ed[0]
-    pen = ed.d["params"][0]["n"]
-    calls = [(b, i) for b, i, x in ed.nodes(("call",)) if x.get("u") == gc.id]
-    writes = [pos for pos, node, kind, arg in mode_changes(ed) if kind == "write"]
-    ok = False
-    if calls and writes:
-        at = {(estr(cn), pol) for cn, pol, e in ed.facts(calls[0][0])}
-        ok = at == {("deferred_deletion_", True), (pen, False)} and not ed.dominates(writes[0], calls[0])
-    (ck.ok if ok else lambda r, w, t: ck.violate(r, w, t, "C04.leave"))("C04.leave", ed.where, "enable_deferred_deletion calls collect_garbage() exactly under (deferred_deletion_ && !_enable), before writing the flag")
+    leave_rule(ck, c, gc)
     # (4) StatusAttrib::garbage_collection
     ck.rule("C04.status", "StatusAttrib::garbage_collection deletes status-marked edges/faces/cells only when not already deleted, establishes bottom-up incidences before the manifoldness pass, remaps tracked handles only when valid, from maps sized before collect_garbage(), and collects on every path")
     sg = [f for f in fb.fns.values() if f.cls == "OpenVolumeMesh::StatusAttrib" and f.name == "garbage_collection" and f.has_cfg and len(f.d["params"]) == 5]
@@ -158,6 +145,24 @@ def run_c04(ck, fb, fbd):
     elem = elem_effects(c)
     owner_rule(c, cores, elem)
     compute_rule(c)
+
+
+def leave_rule(ck, c, gc):
+    """leaving deferred mode collects (shared with C02: pending deletions must not survive into immediate mode)"""
+    # (3) leaving deferred mode collects
+    ck.rule("C04.leave", "enable_deferred_deletion(false) passes through collect_garbage() whenever the mode was on, before the flag is written")
+    ed = [f for f in c.fns if f.name == "enable_deferred_deletion"]
+    if not ed:
+        raise AnalysisBroken("anchor vanished: TopologyKernel::enable_deferred_deletion")
+    ed = ed[0]
+    pen = ed.d["params"][0]["n"]
+    calls = [(b, i) for b, i, x in ed.nodes(("call",)) if x.get("u") == gc.id]
+    writes = [pos for pos, node, kind, arg in mode_changes(ed) if kind == "write"]
+    ok = False
+    if calls and writes:
+        at = {(estr(cn), pol) for cn, pol, e in ed.facts(calls[0][0])}
+        ok = at == {("deferred_deletion_", True), (pen, False)} and not ed.dominates(writes[0], calls[0])
+    (ck.ok if ok else lambda r, w, t: ck.violate(r, w, t, "C04.leave"))("C04.leave", ed.where, "enable_deferred_deletion calls collect_garbage() exactly under (deferred_deletion_ && !_enable), before writing the flag")
 
 
 def status_remap(ck, f):
